@@ -1,7 +1,7 @@
 #!/bin/bash
 # usage: run_all.sh <tier>   -- runs every registered check, prints one line each
 tier=${1:-quick}
-cd /verif
+cd "$(dirname "$0")/.."
 for p in $(python3 -c "import json; print(' '.join(c['property_id'] for c in json.load(open('MANIFEST.json'))['checks']))"); do
   s=$(date +%s); out=$(bin/check $p --tier $tier 2>&1); rc=$?; e=$(date +%s)
   echo "$p exit=$rc $((e-s))s $(echo "$out" | grep -c KNOWN-FINDING) known $(echo "$out" | grep -E 'VIOLATION|TOOL-ERROR' | head -2 | tr '\n' ' ')"
